@@ -200,6 +200,9 @@ func Harness_C08_BuilderOutputAccepted() {
 	if verifrt.Choose("same-next-keys", 2) == 1 {
 		nextUpd = nextRec
 	}
+	// the signer's protected headers: alg only / with a kid / with a member the parser does not allow (alone or
+	// next to a kid) - the builder has to refuse what the parser would
+	signer := cur.WithHeaders([]map[string]interface{}{{}, {"kid": "key-1"}, {"typ": "JWT"}, {"kid": "key-1", "typ": "JWT"}}[verifrt.Choose("signer-headers", 4)])
 	var req []byte
 	var err error
 	builder := verifrt.Choose("builder", 3)
@@ -209,10 +212,10 @@ func Harness_C08_BuilderOutputAccepted() {
 			UpdateCommitment: gen.Commitment(nextUpd, updCode), MultihashCode: code})
 	case 1:
 		req, err = NewUpdateRequest(&UpdateRequestInfo{DidSuffix: "sfx" + verifrt.AnyAtom("suffix"), Patches: []patch.Patch{gen.KeyPatch("p")},
-			UpdateCommitment: gen.Commitment(nextUpd, updCode), UpdateKey: cur.JWK, MultihashCode: code, Signer: cur.S, RevealValue: gen.Reveal(cur.JWK, revealCode)})
+			UpdateCommitment: gen.Commitment(nextUpd, updCode), UpdateKey: cur.JWK, MultihashCode: code, Signer: signer, RevealValue: gen.Reveal(cur.JWK, revealCode)})
 	default:
 		req, err = NewRecoverRequest(&RecoverRequestInfo{DidSuffix: "sfx" + verifrt.AnyAtom("suffix"), RecoveryKey: cur.JWK, Patches: []patch.Patch{gen.KeyPatch("p")},
-			RecoveryCommitment: gen.Commitment(nextRec, recCode), UpdateCommitment: gen.Commitment(nextUpd, updCode), MultihashCode: code, Signer: cur.S,
+			RecoveryCommitment: gen.Commitment(nextRec, recCode), UpdateCommitment: gen.Commitment(nextUpd, updCode), MultihashCode: code, Signer: signer,
 			RevealValue: gen.Reveal(cur.JWK, revealCode)})
 	}
 	if err != nil {
